@@ -81,6 +81,9 @@ func Harness_C20_ops() {
 
 	held := v.HeldLocks()
 	v.Assert("C20/setup-releases-locks", held == 0)
+	// from here on the node is "running": the routing table's local endpoint
+	// counters may only be changed under the registry mutex (lock recorder rule)
+	v.Tag("serialised")
 	switch v.Choose("op", 16) {
 	case 0:
 		u, ok := n.m.Select("e"+strconv.Itoa(v.Choose("ep", 3)), v.Choose("allow", 2) == 1)
@@ -142,9 +145,7 @@ func Harness_C20_ops() {
 	case 14: // subscriptions
 		n.cs.OnLocalEndpointUpdate(func(string) {})
 		n.cs.OnRemoteEndpointUpdate(func(string, string) {})
-		n.cs.AddLocalEndpoint("e9")
-		n.cs.RemoveLocalEndpoint("e9")
-		n.cs.RemoveLocalEndpoint("never-added")
+		n.m.AddConn(&vUp{id: 60, ep: "e9"})
 	case 15: // real failure detector
 		d := pkggossip.VerifNewDetector(time.Second, 3)
 		d.ReportWithTimestamp("x", v.Time("t0"))
